@@ -21,9 +21,11 @@ import (
 	"regexp"
 	"sort"
 	"strings"
+	"sync"
 	"sync/atomic"
 	"time"
 
+	"github.com/php-any/origami/std/php/core"
 	"github.com/php-any/origami/utils/vshim"
 
 	"verif/engine/ev"
@@ -267,6 +269,7 @@ func insertionWorker(w *pool.W, arg json.RawMessage) {
 			}
 			if w.Item(fmt.Sprint("ins:", keys)) {
 				n++
+				core.SetExecutionDeadline(0) // see evalScriptDir
 				o := observe(insertionScript(keys))
 				lines := strings.Split(o.Out, "\n")
 				want := strings.Join(keys, ",")
@@ -732,18 +735,33 @@ func main() {
 		if !c.Quick() {
 			reps = 20
 		}
+		// each program's repetitions are sequential; different programs run side by side
+		var wg sync.WaitGroup
+		var mu sync.Mutex
+		sem := make(chan struct{}, 16)
 		for _, p := range programs {
-			f := progFile(dir, p.Name)
-			first := cliRun(bin, f)
-			for i := 1; i < reps; i++ {
-				total++
-				if got := cliRun(bin, f); got != first {
-					c.Fail("cli-nondeterminism:"+p.Name, "process-determinism", len(p.Src), map[string]any{"prog": p.Name}, fmt.Sprintf("two runs of the CLI on the same file differ:\n%s\n---\n%s", first, got))
-					break
+			wg.Add(1)
+			sem <- struct{}{}
+			go func(p prog) {
+				defer func() { <-sem; wg.Done() }()
+				f := progFile(dir, p.Name)
+				first := cliRun(bin, f)
+				runs := int64(1)
+				for i := 1; i < reps; i++ {
+					runs++
+					if got := cliRun(bin, f); got != first {
+						mu.Lock()
+						c.Fail("cli-nondeterminism:"+p.Name, "process-determinism", len(p.Src), map[string]any{"prog": p.Name}, fmt.Sprintf("two runs of the CLI on the same file differ:\n%s\n---\n%s", first, got))
+						mu.Unlock()
+						break
+					}
 				}
-			}
-			total++
+				mu.Lock()
+				total += runs
+				mu.Unlock()
+			}(p)
 		}
+		wg.Wait()
 	}
 	var sites []string
 	for s := range allSites {
@@ -753,6 +771,9 @@ func main() {
 	c.Set("pool_programs", len(programs))
 	c.Set("range_sites_with_2plus_entries_hit", sites)
 	c.Set("ordered_pairs", len(programs)*len(programs))
+	c.Set("history_max_ops", maxLen)
+	c.Assume("the CLI route runs a pool program the way cmd.RunScriptFile does (file, fresh parser+VM, std+php libraries, LoadAndRun, ShowControl, shutdown callbacks) but inside the harness process; a pair whose first program ends through os.Exit (exit(), the default uncaught handler) is not a reachable state of a real process and is skipped")
+	c.Assume("for OBJECT properties the meaning of unset is left open (origami assigns null or ignores it, PHP removes the property): any one of the three readings must explain every enumeration route of the container; for arrays unset removes the entry and a later set of the key is a new insertion")
 	c.Assume("nondeterminism that is not routed through a Go map range with an ordered key type (pointer-keyed maps, time, OS, addresses) is not controlled; Go pointer values printed inside diagnostics are masked")
 	c.Assume("order dependences that need three or more deviating range sites at once are outside the bound")
 	c.Set("enumeration_routes", routeStats)
@@ -761,7 +782,7 @@ func main() {
 	}
 	os.RemoveAll(progDir)
 	runner.Cleanup()
-	c.Finish(int64(len(programs)*len(programs)+len(sites)), total, total, fmt.Sprintf("%d pool programs x (all-ascending baseline + every single-site deviation incl. all permutations of maps <= 4 entries + every pair of deviating sites); all insertion sequences of <= 4 distinct keys from a pool of 6 into arrays and objects; all %d ordered pairs (A;B) vs B alone in a new process; CLI repetitions", len(programs), len(programs)*len(programs)))
+	c.Finish(int64(len(programs)*len(programs)+len(sites)), total, total, fmt.Sprintf("%d pool programs x (all-ascending baseline + every single-site deviation incl. all permutations of maps <= 4 entries + every pair of deviating sites); all insertion sequences of <= 4 distinct keys from a pool of 6 into arrays and objects; every set/unset history of <= %d ops over <= 4 keys (up to key renaming) x 4 key assignments x every container birth x every enumeration route, each with all Go map ranges ascending and descending, plus bulk histories crossing deletion thresholds; all %d ordered pairs (A;B) vs B alone in a new process, through the in-process route and through the CLI route (stdout, stderr and exit status byte for byte); CLI repetitions", len(programs), maxLen, len(programs)*len(programs)))
 }
 
 func replay(c *ev.Check) {
@@ -783,13 +804,46 @@ func replay(c *ev.Check) {
 			c.Fail(r.Key, "map-order-independence", 0, oc, "replayed")
 		}
 	case strings.HasPrefix(r.Key, "residue:"):
-		var pc struct{ A, B string }
+		var pc struct {
+			A, B string
+			CLI  bool
+		}
 		json.Unmarshal(r.Case, &pc)
-		solo, _ := selfExec(execSpec{Progs: []string{pc.B}})
-		pair, _ := selfExec(execSpec{Progs: []string{pc.A, pc.B}, Trace: true})
+		dir := ""
+		if pc.CLI {
+			dir, _ = os.MkdirTemp("/dev/shm", "c20-progs-")
+			defer os.RemoveAll(dir)
+			writePrograms(dir)
+		}
+		solo, _ := selfExec(execSpec{Progs: []string{pc.B}, CLI: pc.CLI, Dir: dir})
+		pair, _ := selfExec(execSpec{Progs: []string{pc.A, pc.B}, Trace: true, CLI: pc.CLI, Dir: dir})
+		os.RemoveAll(dir)
 		fmt.Printf("B alone: %s\nafter A: %s carriers=%v\n", solo.Obs, pair.Obs, pair.Carriers)
 		if solo.Obs != pair.Obs {
 			c.Fail(r.Key, "fresh-vm-independence", 0, pc, "replayed")
+		}
+	case strings.HasPrefix(r.Key, "history-order:"):
+		var hc histCase
+		json.Unmarshal(r.Case, &hc)
+		var fs []histFailure
+		if hc.Bulk != "" {
+			var b bulkSpec
+			fmt.Sscanf(strings.NewReplacer(",", " ", "=", " ").Replace(hc.Bulk), "n %d del %s re %s ext %d", &b.N, &b.Del, &b.Re, &b.Ext)
+			fs, _ = evalBulk(b, hc.Assign, map[string]int{})
+			fmt.Printf("bulk history %s, %s keys\n", b, hc.Assign)
+		} else {
+			for _, a := range assigns {
+				if a.Name == hc.Assign {
+					fs, _, _ = evalHistory(hc.Hist, a, map[string]int{})
+					fmt.Printf("history %s, keys %s\nscript:\n%s\n", histString(hc.Hist), a.Name, histScript(buildContainers(hc.Hist, a)))
+				}
+			}
+		}
+		for _, f := range fs {
+			fmt.Printf("%s born as %q, route %s: %s\n  enumerated: %s\n  insertion order: %s\n", f.Kind, f.Birth, f.Route, f.Why, clip(f.Got, 400), clip(f.Want, 400))
+			if strings.HasPrefix(r.Key, "history-order:"+f.Kind+":"+f.Class+":") {
+				c.Fail(r.Key, "insertion-order", len(hc.Hist), hc, "replayed: "+f.Why)
+			}
 		}
 	case strings.HasPrefix(r.Key, "insertion-order:"):
 		var ic struct{ Keys []string }
